@@ -103,6 +103,10 @@ func TestVerifC05Twin(t *testing.T) {
 			ClientRate: rapid.SampledFrom([]int{0, 0, 0, 3, 100}).Draw(rt, "clientrate"), EntryRate: rapid.SampledFrom([]int{0, 0, 0, 2, 50}).Draw(rt, "entryrate")}
 		// the upstream table is drawn once and rebuilt identically for both runs
 		proto := vfGenUpstream(rt)
+		proofZone := rapid.IntRange(0, 2).Draw(rt, "proofzone") > 0
+		if proofZone {
+			vfAddProofZone(rt, proto)
+		}
 		mkUp := func() *vfUp {
 			u := &vfUp{table: map[string]*vfUpAnswer{}}
 			for k, a := range proto.table {
@@ -120,7 +124,14 @@ func TestVerifC05Twin(t *testing.T) {
 		}
 		hots := []hotQ{{"www.example.org.", 1}, {"alias.example.org.", 1}, {"alias2.example.org.", 1}, {"nx.example.org.", 1}, {"signed.example.org.", 1}, {"fail.example.org.", 1},
 			{"big.example.org.", 16}, {"ede.example.org.", 1}, {"geo.example.org.", 1}, {"nodata.example.org.", 1}, {"local.test.", 1}, {"1.0.0.10.in-addr.arpa.", 12}, {"deep.nx.example.org.", 1}}
+		szNames := []hotQ{{"gone.sz.example.org.", 1}, {"a.b.gone.sz.example.org.", 1}, {"A.B.Gone.SZ.example.org.", 28}, {"x.gone.sz.example.org.", 1}, {"gx.sz.example.org.", 1}, {"nd.sz.example.org.", 16}, {"nd.sz.example.org.", 15}, {"nd.sz.example.org.", 1}, {"zz.sz.example.org.", 1}}
+		if proofZone {
+			hots = append(hots, szNames[:2]...)
+		}
 		hot := hots[rapid.IntRange(0, len(hots)-1).Draw(rt, "hot")]
+		if proofZone && rapid.Bool().Draw(rt, "hotproof") {
+			hot = szNames[0]
+		}
 		hot2 := hots[rapid.IntRange(0, len(hots)-1).Draw(rt, "hot2")]
 		for i := 0; i < n; i++ {
 			if rapid.IntRange(0, 3).Draw(rt, "issleep") == 0 {
@@ -133,6 +144,16 @@ func TestVerifC05Twin(t *testing.T) {
 				q.Name, q.Qtype = hot.name, hot.qtype
 			case 3:
 				q.Name, q.Qtype = hot2.name, hot2.qtype
+			case 4:
+				if proofZone {
+					// validated negative proofs: the denied name, names below it, names the same NSEC covers, other types
+					// at a NODATA owner - in both CD partitions
+					z := szNames[rapid.IntRange(0, len(szNames)-1).Draw(rt, "szname")]
+					q.Name, q.Qtype = z.name, z.qtype
+					if len(q.Edits) == 0 {
+						q.Qclass = dns.ClassINET
+					}
+				}
 			}
 			steps = append(steps, vfC05Step{Q: q, Raw: q.Pack(), Proto: rapid.SampledFrom([]string{"udp", "udp", "tcp"}).Draw(rt, "proto"), Client: rapid.IntRange(0, len(vfgen.ClientAddrs)-1).Draw(rt, "client"),
 				Echo: p.Cookie && rapid.IntRange(0, 2).Draw(rt, "echo") == 0})
